@@ -580,6 +580,10 @@ def run_C10(run):
         cases += [(f"Conditional({nm!r}, 'a', 'c')", True), (f"Conditional({nm!r}, AnyDigit(), AnyLetter())", True), (f"Conditional({nm!r}, 'ab', 'cd') + 'e'", True),
                   (f"Conditional({nm!r}, 'ab', 'c')", False), (f"Conditional({nm!r}, 'ab')", False), (f"Conditional({nm!r}, Optional('a'), 'c')", False),
                   (f"Conditional({nm!r}, 'a', 'c') + OneOrMore('d')", False)]
+    # classes whose text ends in a backslash (or holds brackets) next to a quantifier and another class
+    for c_ in ("AnyButFrom('\\\\')", "AnyFrom('a', '\\\\')", "AnyFrom('\\\\', ']')", "AnyFrom('[', ']')", "AnyButFrom(']')", "AnyFrom('\\\\')"):
+        cases += [(f"Optional({c_}) + AnyFrom('x', 'y')", False), (f"{c_} + OneOrMore(AnyFrom('x', 'y'))", False), (f"AnyFrom('x', 'y') + AtMost({c_}, 2) + AnyDigit()", False),
+                  (f"{c_} + AnyFrom('x', 'y')", True), (f"Exactly({c_}, 2) + AnyFrom('?', '*') + {c_}", True), (f"Either({c_}, AnyFrom('+', '{{')) + {c_}", True)]
     for y, is_fixed in cases:
         for src in (f"PrecededBy('k', {y})", f"NotPrecededBy('k', {y})", f"EnclosedBy('k', {y})", f"Pregex('k').not_enclosed_by({y})", f"PrecededBy('k', 'z', {y})"):
             n += 1
